@@ -73,6 +73,7 @@ func runC05(p *load.Program, r *oblig.Report) {
 	c05WrapperOffsets(p, r)
 	c05StandaloneReadFrom(p, r)
 	c05MessageSizeFloor(p, r)
+	c05TimeSiblings(p, r)
 	c05VersionPerBatch(p, r)
 }
 
